@@ -68,7 +68,7 @@ def tasks(tier, seed):
     # one-sided / biased / user-supplied stencils together with boundaries (Dirichlet data, default treatment)
     for d, order, st in ((1, 1, 'upwind'), (1, 2, 'forward'), (1, 2, 'backward'), (1, 3, 'upwind'), (2, 2, 'forward'), (2, 1, 'backward'), (1, 4, 'upwind')):
         T.append(('bc', d, order, 'dirichlet', False, st, None))
-    for d, steps in ((1, [-2, 0, 1]), (1, [-1, 0, 2, 3]), (2, [-1, 0, 1, 2]), (1, [-3, -1, 0, 1]), (1, [0, 1, -1]), (1, [1, 2, -1, 0])):
+    for d, steps in ((1, [-2, 0, 1]), (1, [-1, 0, 2, 3]), (2, [-1, 0, 1, 2]), (1, [-3, -1, 0, 1]), (1, [0, 1, -1]), (1, [1, 2, -1, 0]), (1, [-1, 0, 3]), (1, [-3, 0, 1]), (2, [-1, 0, 1, 2, 5]), (1, [-2, -1, 0, 1, 4])):  # (offset sets with gaps included)
         T.append(('bc', d, len(steps) - d, 'dirichlet', False, None, steps))
     # Neumann data with an explicitly given order of the one-sided closure (above and below the interior order)
     for d, order, nbo in ((2, 2, 3), (2, 2, 1), (2, 4, 5), (2, 4, 2), (1, 2, 3)):
